@@ -17,7 +17,7 @@ EXPLANATION = ("cyc/stb/we/adr/sel/dat_w/cti are free per cycle under the classi
                "never for an access the memory has not served; read data from the memory is never dropped.")
 
 
-def wb_bench(name, wb_dw=32, port_dw=32, base=0, aw_native=4, write_aborts=False):
+def wb_bench(name, wb_dw=32, port_dw=32, base=0, aw_native=4, write_aborts=False, queued_wdata=False):
     from litex.soc.interconnect import wishbone
     from litedram.frontend.wishbone import LiteDRAMWishbone2Native
     ratio_up = port_dw // wb_dw if port_dw > wb_dw else 1       # narrow bus
@@ -45,7 +45,7 @@ def wb_bench(name, wb_dw=32, port_dw=32, base=0, aw_native=4, write_aborts=False
         top.comb += [na.eq(WA * ratio_down + (WL >> log2_int(nb) if nb > 1 else WL)), nl.eq(WL[:log2_int(nb)] if nb > 1 else 0)]
     else:
         top.comb += [na.eq(WA), nl.eq(WL)]
-    stub = memstub.NativeMemStub(port, na, nl, mem, depth=2)
+    stub = memstub.NativeMemStub(port, na, nl, mem, depth=2, queued_wdata=queued_wdata)
     top.submodules.stub = stub
     # the bridge withdraws its native command when the master aborts: not part of this property
     stub.bads.pop("frontend_changes_or_drops_unaccepted_command", None)
@@ -214,6 +214,7 @@ CONFIGS = {
     "abortw_wide_32_on_16": (dict(wb_dw=32, port_dw=16, write_aborts=True), 18, 24, "qt"),
     "abortw_narrow_16_on_32": (dict(wb_dw=16, port_dw=32, write_aborts=True), 20, 26, "qt"),
     "equal_32": (dict(wb_dw=32, port_dw=32), 20, 30, "qt"),
+    "equal_32_queued_wdata": (dict(wb_dw=32, port_dw=32, queued_wdata=True), 18, 26, "qt"),
     "equal_32_base": (dict(wb_dw=32, port_dw=32, base=0x40), 0, 28, "t"),
     "narrow_16_on_32": (dict(wb_dw=16, port_dw=32), 20, 30, "qt"),
     "narrow_8_on_32": (dict(wb_dw=8, port_dw=32), 0, 28, "t"),
@@ -227,6 +228,8 @@ def run(ctx):
     ctx.assume("Wishbone master: classic cycles and incrementing bursts (cti free), access held stable until ack or abort (cyc "
                "dropped at any cycle), addresses inside the window above base_address")
     ctx.assume("memory: in-order native stub with the real crossbar's pulse semantics, arbitrary stalls, latency >= 2, <= 2 queued")
+    ctx.assume("'*_queued_wdata' benches: the native port queues write data like a port created with a width converter or a clock "
+               "crossing (data beats accepted whenever its FIFO has room, paired with write commands in order)")
     ctx.assume("benches without the 'abortw_' prefix: the master aborts only read accesses (see the known finding on aborted writes)")
     ctx.assume("an aborted write makes the watched byte's expected value unknown until the next acknowledged write to it; flush "
                "visibility at the native side when cyc drops is not covered")
